@@ -22,7 +22,10 @@ EXTENDS Naturals, Sequences, FiniteSets, TLC
 NoHint == 9
 Hints == {NoHint, 0, 1, 3, 5}
 Leaves == {[k |-> "leaf", none |-> FALSE, hint |-> h] : h \in Hints} \cup {[k |-> "leaf", none |-> TRUE, hint |-> 0]}
+CONSTANT AllMembers   \* FALSE: a composite answers the none-marker query if ANY member is absent (the code before the repair of
+                      \* F17 / F28); TRUE: only if ALL its members are absent (the repair)
 Elems == Leaves \cup {[k |-> "and_then", a |-> a, b |-> b] : a \in Leaves, b \in Leaves}
+                \cup {[k |-> "vec", items |-> q] : q \in UNION {[1..n -> Leaves] : n \in 0..2}}
 
 VARIABLE stack
 Init == stack \in UNION {[1..n -> Elems] : n \in 1..3}
@@ -30,7 +33,7 @@ Next == UNCHANGED stack
 Spec == Init /\ [][Next]_stack
 
 (* ------------------------------- A ------------------------------------- *)
-LeavesOf(e) == IF e.k = "leaf" THEN {e} ELSE {e.a, e.b}
+LeavesOf(e) == IF e.k = "leaf" THEN {e} ELSE IF e.k = "vec" THEN {e.items[i] : i \in DOMAIN e.items} ELSE {e.a, e.b}
 AllLeaves == UNION {LeavesOf(stack[i]) : i \in DOMAIN stack}
 \* (with no present leaf nobody can lose an event: any hint is sound then)
 Accepts(l) == /\ \E x \in AllLeaves : ~x.none
@@ -45,8 +48,15 @@ Pick(outer, inner, innerIsNone, subIsNone, innerIsRegistry) ==
   ELSE IF subIsNone THEN (IF inner = NoHint THEN NoHint ELSE OMax(outer, inner))
   ELSE IF innerIsNone /\ inner = 0 THEN outer
   ELSE OMax(outer, inner)
-Marker(e) == IF e.k = "leaf" THEN e.none ELSE e.a.none \/ e.b.none       \* Layered forwards the marker query to both halves
+Marker(e) == IF e.k = "leaf" THEN e.none
+             ELSE IF e.k = "vec" THEN e.items = << >> \/ (IF AllMembers THEN \A i \in DOMAIN e.items : e.items[i].none
+                                                                         ELSE \E i \in DOMAIN e.items : e.items[i].none)   \* Vec: find_map over its elements
+             ELSE IF AllMembers THEN e.a.none /\ e.b.none ELSE e.a.none \/ e.b.none       \* Layered forwards the marker query to both halves
+\* Vec::max_level_hint: OFF when empty, no hint as soon as one element has none, else the most verbose
+VHint(q) == IF q = << >> THEN 0 ELSE IF \E i \in DOMAIN q : q[i].hint = NoHint THEN NoHint
+            ELSE CHOOSE h \in {q[i].hint : i \in DOMAIN q} : \A i \in DOMAIN q : q[i].hint <= h
 EHint(e) == IF e.k = "leaf" THEN e.hint
+            ELSE IF e.k = "vec" THEN VHint(e.items)
             ELSE Pick(e.b.hint, e.a.hint, e.a.none, e.b.none, FALSE)      \* a.and_then(b): subscriber = b, inner = a
 RECURSIVE CHint(_), CMarker(_)
 CMarker(n) == IF n = 0 THEN FALSE ELSE Marker(stack[n]) \/ CMarker(n - 1)
@@ -54,10 +64,13 @@ CHint(n) == IF n = 0 THEN NoHint
             ELSE Pick(EHint(stack[n]), CHint(n - 1), CMarker(n - 1), Marker(stack[n]), n = 1)
 StackHint == CHint(Len(stack))
 
-F17Shape == Len(stack) >= 2 /\ \E i \in DOMAIN stack : stack[i].k = "and_then" /\ (stack[i].a.none \/ stack[i].b.none)
+F17Shape == Len(stack) >= 2 /\ \E i \in DOMAIN stack : \/ stack[i].k = "and_then" /\ (stack[i].a.none \/ stack[i].b.none)
+                                                       \/ stack[i].k = "vec" /\ \E j \in DOMAIN stack[i].items : stack[i].items[j].none
 UnsoundOnlyF17 == ~Sound(StackHint) => F17Shape
 \* without and_then trees with an absent half every hint is sound
 SoundOutsideF17 == ~F17Shape => Sound(StackHint)
 \* the finding itself: some F17-shaped stack is unsound
 F17Exists == ~(F17Shape /\ ~Sound(StackHint))
+\* the repaired rule: every hint is sound
+AlwaysSound == Sound(StackHint)
 =============================================================================
